@@ -10,8 +10,10 @@ from ..scanmodel import ScanEnv, Tok, Input
 from ..vm import VM, Panic, Seq, Struct, Unsupported
 from .scanvm import run_many, show, T, depth_for, FIND  # noqa: F401
 
-# (class, bytes): alnum 1,2,3,4 bytes; word-internal marks; separators 1,2,3,4 bytes
-CHARS = ['a', '\u00e9', '\u4e2d', '\U0001d7d8', '-', "'", ' ', '\u00a0', '\u2009', '\U0001f600', 'B', '\ufeff']
+# (class, bytes, case): alnum 1,2,3,4 bytes; word-internal marks; separators 1,2,3,4 bytes; upper-case letters whose lowercase has a different length
+CHARS = ['a', '\u00e9', '\u4e2d', '\U0001d7d8', '-', "'", ' ', '\u00a0', '\u2009', '\U0001f600', 'B', '\ufeff',
+         # letters whose lowercase form has another UTF-8 length (offsets computed on one form must not index the other)
+         '\u0130', '\u1e9e', '\u212a']
 
 
 def tokenize_vm(facts, text):
@@ -110,7 +112,7 @@ def rule_tokenizer(ctx, rep):
             rep.violation(R, k, '%s: %r -> %s' % (msg, text, what))
         else:
             rep.ok(R, k, 'holds on %d strings' % n)
-    rep.floor(R, n, 22000, 'strings tokenized')
+    rep.floor(R, n, 54000, 'strings tokenized')
 
 
 # ---------------------------------------------------------------------------------------------------------
